@@ -96,7 +96,11 @@ def mergeProducts (st : Bool) : Nat → List Expr → List Expr → R (List Expr
   | 0, _, _ => throw "fuel"
   | _+1, [], o2 => pure o2
   | _+1, o1, [] => pure o1
-  | fuel+1, a :: as, b :: bs => do
+  | fuel+1, a :: as, b :: bs =>
+    -- a collected factor can itself be a product: keep the operand lists flat
+    if a.op == MULTIPLICATION then mergeProducts st fuel (a.args ++ as) (b :: bs)
+    else if b.op == MULTIPLICATION then mergeProducts st fuel (a :: as) (b.args ++ bs)
+    else do
     let firsts ← simplifyProductRec st fuel [a, b]
     match firsts with
     | [] => mergeProducts st fuel as bs
@@ -150,7 +154,11 @@ def mergeSums (st : Bool) : Nat → List Expr → List Expr → R (List Expr)
   | 0, _, _ => throw "fuel"
   | _+1, [], o2 => pure o2
   | _+1, o1, [] => pure o1
-  | fuel+1, a :: as, b :: bs => do
+  | fuel+1, a :: as, b :: bs =>
+    -- a collected term can itself be a sum: keep the operand lists flat
+    if a.op == ADDITION then mergeSums st fuel (a.args ++ as) (b :: bs)
+    else if b.op == ADDITION then mergeSums st fuel (a :: as) (b.args ++ bs)
+    else do
     let firsts ← simplifySumRec st fuel [a, b]
     match firsts with
     | [] => mergeSums st fuel as bs
